@@ -22,9 +22,9 @@ fn main() {
         let built = defgen::build(spec);
         let code = defgen::generate_module(&built.def, true, true);
         let gen_file = format!("d{}_gen.rs", idx);
-        fs::write(out.join(&gen_file), code).unwrap();
+        fs::write(out.join(&gen_file), &code).unwrap();
         let module = format!("d{}", idx);
-        glue.push_str(&defgen::emit_glue(spec, &built, &module, &gen_file));
+        glue.push_str(&defgen::emit_glue(spec, &built, &module, &gen_file, &code));
         writeln!(
             registry,
             "        reccore::DefEntry {{ name: {:?}, max_size: {m}::max_size, instantiate: [{m}::instantiate::<{{ {m}::gen::MAX_SIZE }}>, {m}::instantiate::<{{ {m}::gen::MAX_SIZE + 1 }}>, {m}::instantiate::<{{ {m}::gen::MAX_SIZE + 5 }}>] }},",
